@@ -5,6 +5,7 @@ package main
 // is then available as an axiom to the queries that mention its trigger function.
 
 import (
+	"regexp"
 	"fmt"
 	"os"
 	"path/filepath"
@@ -22,6 +23,7 @@ type SmtLemma struct {
 	Trigger string // function symbol that makes the lemma relevant
 	Axiom   bool   // definitional axiom of an uninterpreted prelude function: not proved
 	Also    []string // variables that move together with the induction variable
+	Eager    bool    // definitional, non-recursive: instantiated at every new ground term in every variant
 	Monotone bool    // hyp(n) implies hyp(n-1): checked separately, lets the step use concl(n-1) directly
 }
 
@@ -65,6 +67,8 @@ func loadSmtLemmas(verifDir string) ([]*SmtLemma, error) {
 				lm.Axiom = true
 			case "monotone":
 				lm.Monotone = true
+			case "eager":
+				lm.Eager = true
 			}
 		}
 		if lm.Concl == nil {
@@ -106,7 +110,7 @@ func (lm *SmtLemma) queries(p *Program, prelude string, earlier []*SmtLemma) map
 		goal := strings.TrimSuffix(strings.TrimPrefix(last, "(assert (not "), "))")
 		decls, extra, neg := preInstantiate(body, "true", goal, 9, nil)
 		return decl.String() + strings.Join(body, "\n") + "\n" + strings.Join(decls, "\n") + "\n" + strings.Join(extra, "\n") + "\n" +
-			sub.lemmaInstancesOnce(asserts, "", nil) + neg + "\n(check-sat)\n"
+			sub.lemmaInstancesOnce(asserts, "", nil, 0) + neg + "\n(check-sat)\n"
 	}
 	out := map[string]string{}
 	if lm.Induct == "" {
@@ -188,14 +192,56 @@ func (p *Program) lemmaInstances(lines []string, goal string) string {
 	return p.lemmaInstancesN(lines, goal, 3)
 }
 
+// lemmaFamilies groups trigger functions whose lemmas are used together. A goal that mentions
+// functions of some families only gets the lemmas of those families (plus the marker-triggered
+// ones, which are explicit requests); a goal mentioning none gets all of them, and a second
+// variant without any family lemma races it (noFamilies).
+var lemmaFamilies = map[string]string{"prod": "prod", "nkept": "axes", "memb": "axes", "nnot1": "axes", "nkcong": "axes"}
+
+func (p *Program) relevantLemmas(goal string) map[*SmtLemma]bool {
+	fams := map[string]bool{}
+	for fn, fam := range lemmaFamilies {
+		if strings.Contains(goal, "("+fn+" ") {
+			fams[fam] = true
+		}
+	}
+	out := map[*SmtLemma]bool{}
+	for _, lm := range p.lemmas {
+		fam, ok := lemmaFamilies[lm.Trigger]
+		if !ok || (len(fams) == 0 && !p.noFamilies) || fams[fam] {
+			out[lm] = true
+		}
+	}
+	return out
+}
+
 func (p *Program) lemmaInstancesN(lines []string, goal string, rounds int) string {
+	fullSecond := rounds >= 3
+	if goal != "" {
+		rel := p.relevantLemmas(goal)
+		if len(rel) < len(p.lemmas) {
+			var ls []*SmtLemma
+			for _, lm := range p.lemmas {
+				if rel[lm] {
+					ls = append(ls, lm)
+				}
+			}
+			q := *p
+			q.lemmas = ls
+			p = &q
+		}
+	}
 	// a few rounds: instances of the defining axioms introduce new ground terms (one unfolding
 	// step each) that later rounds can use
 	all := ""
 	seen := map[string]bool{}
 	cur := append([]string{}, lines...)
 	for round := 0; round < rounds; round++ {
-		out := p.lemmaInstancesOnce(cur, goal, seen)
+		r := round
+		if r == 1 && !fullSecond {
+			r = 2
+		}
+		out := p.lemmaInstancesOnce(cur, goal, seen, r)
 		if out == "" {
 			break
 		}
@@ -210,15 +256,100 @@ func (p *Program) lemmaInstancesN(lines []string, goal string, rounds int) strin
 			break
 		}
 	}
+	// eager (definitional, non-recursive) rules at the terms introduced by the instances that were
+	// generated for the applications in the goal (goal-directed: instances for hypothesis terms
+	// do not fan out any further)
+	goalApps := map[string]bool{}
+	if gt := parseSexpr(goal); gt != nil {
+		for _, lm := range p.lemmas {
+			if lm.Trigger == "" {
+				continue
+			}
+			found := map[string]*sx_{}
+			collectApps(gt, lm.Trigger, map[string]bool{}, found)
+			for k := range found {
+				goalApps[k] = true
+			}
+		}
+	}
+	var derived []string
+	for _, l := range strings.Split(all, "\n") {
+		for a := range goalApps {
+			if strings.Contains(l, a) {
+				derived = append(derived, l)
+				break
+			}
+		}
+	}
+	for pass := 0; pass < 2 && len(derived) > 0; pass++ {
+		out := p.lemmaInstancesOnce(derived, "", seen, -1)
+		if out == "" {
+			break
+		}
+		all += out
+		derived = nil
+		for _, l := range strings.Split(out, "\n") {
+			if l != "" {
+				seen[l] = true
+				derived = append(derived, l)
+			}
+		}
+	}
 	return all
 }
 
-func (p *Program) lemmaInstancesOnce(lines []string, goal string, skip map[string]bool) string {
+var succDefRe = regexp.MustCompile(`^\(assert \(= ([^\s()]+) \(\+ ([^\s()]+) 1\)\)\)$`)
+
+// predecessors maps "(- A 1)" to B for every definition (= A (+ B 1)) among the lines, so that the
+// unfolding of f(.., A) mentions f(.., B) rather than f(.., (- A 1)).
+func predecessors(lines []string) *strings.Replacer {
+	var pairs []string
+	for _, l := range lines {
+		if m := succDefRe.FindStringSubmatch(l); m != nil {
+			pairs = append(pairs, "(- "+m[1]+" 1)", m[2])
+		}
+	}
+	if len(pairs) == 0 {
+		return nil
+	}
+	return strings.NewReplacer(pairs...)
+}
+
+func (p *Program) lemmaInstancesOnce(lines []string, goal string, skip map[string]bool, round int) string {
+	if round == 0 && !p.legacyLemmas {
+		// first round in two phases: the defining axioms, then the other lemmas, which see the
+		// terms the unfolding introduced
+		var ax, rest []*SmtLemma
+		for _, lm := range p.lemmas {
+			if lm.Axiom {
+				ax = append(ax, lm)
+			} else {
+				rest = append(rest, lm)
+			}
+		}
+		if len(ax) > 0 && len(rest) > 0 {
+			pa, pr := *p, *p
+			pa.lemmas, pr.lemmas = ax, rest
+			first := pa.lemmaInstancesOnce(lines, goal, skip, -2)
+			more := append([]string{}, lines...)
+			for _, l := range strings.Split(first, "\n") {
+				if l != "" {
+					more = append(more, l)
+				}
+			}
+			return first + pr.lemmaInstancesOnce(more, goal, skip, -2)
+		}
+	}
 	var b strings.Builder
 	later := len(skip) > 0
+	pred := predecessors(lines)
 	for _, lm := range p.lemmas {
-		// later rounds only unfold the defining axioms further
-		if later && !lm.Axiom {
+		// the second round lets every lemma see the terms the first unfolding introduced; after
+		// that only the defining axioms are unfolded further
+		if later && !lm.Axiom && round != 1 {
+			continue
+		}
+		if round == -1 && !lm.Eager {
 			continue
 		}
 		if lm.Trigger == "" || len(lm.Pattern) == 0 {
@@ -245,7 +376,7 @@ func (p *Program) lemmaInstancesOnce(lines []string, goal string, skip map[strin
 			keys = append(keys, k)
 		}
 		sortStrings(keys)
-		if later {
+		if later && lm.Axiom && !lm.Eager {
 			// later rounds: only keep unfolding applications whose size argument is a small literal expression
 			var ks []string
 			for _, k := range keys {
@@ -304,6 +435,13 @@ func (p *Program) lemmaInstancesOnce(lines []string, goal string, skip map[strin
 						}
 						if prev, have := bind[v.atom]; have {
 							if prev.String() != app.kids[a].String() {
+								// a variable matched by two different terms: keep the tuple (with an
+								// equality premise) only for two symbols or two array terms; literals
+								// and compound integer terms almost never turn out equal
+								if !p.legacyLemmas && !looseMatch(prev, app.kids[a]) {
+									ok = false
+									break
+								}
 								eqs = append(eqs, eq(prev.String(), app.kids[a].String()))
 							}
 						} else {
@@ -318,6 +456,18 @@ func (p *Program) lemmaInstancesOnce(lines []string, goal string, skip map[strin
 						concl = substAtom(concl, name, t)
 					}
 					inst := "(assert (=> " + and(append(eqs, hyp.String())...) + " " + concl.String() + "))"
+					if pred != nil && lm.Axiom {
+						inst = pred.Replace(inst)
+					}
+					if litFalse(hyp) {
+						// the premise is false by literal arithmetic: the instance says nothing
+						seen[inst] = true
+					}
+					for _, e := range eqs {
+						if t := parseSexpr(e); t != nil && litFalse(t) {
+							seen[inst] = true
+						}
+					}
 					if !seen[inst] && !skip[inst] {
 						seen[inst] = true
 						b.WriteString(inst + "\n")
@@ -439,4 +589,55 @@ func litExprValue(n *sx_) (int64, bool) {
 		return acc, true
 	}
 	return 0, false
+}
+
+// litFalse: the formula is false by evaluating comparisons between integer literals (conjunctions
+// are false when one conjunct is).
+func litFalse(n *sx_) bool {
+	if !n.isList() {
+		return n.atom == "false"
+	}
+	switch n.head() {
+	case "and":
+		for _, k := range n.kids[1:] {
+			if litFalse(k) {
+				return true
+			}
+		}
+		return false
+	case "<", "<=", ">", ">=", "=":
+		if len(n.kids) != 3 {
+			return false
+		}
+		a, ok1 := litExprValue(n.kids[1])
+		b, ok2 := litExprValue(n.kids[2])
+		if !ok1 || !ok2 {
+			return false
+		}
+		switch n.head() {
+		case "<":
+			return !(a < b)
+		case "<=":
+			return !(a <= b)
+		case ">":
+			return !(a > b)
+		case ">=":
+			return !(a >= b)
+		default:
+			return a != b
+		}
+	}
+	return false
+}
+
+// looseMatch: may two syntactically different terms bound to the same lemma variable be equal?
+func looseMatch(a, b *sx_) bool {
+	sym := func(t *sx_) bool {
+		if t.isList() {
+			return t.head() == "select" || t.head() == "store"
+		}
+		_, lit := parseSMTIntStrict(t.atom)
+		return !lit
+	}
+	return sym(a) && sym(b)
 }
